@@ -64,3 +64,9 @@ Theorem C09_built_globs_without_repetitions_always_sound : forall orbit e t r p 
   Lang orbit t p -> Lang orbit t (p ++ SEP :: z).
 Proof. exact built_rep_free_always_sound. Qed.
 Print Assumptions C09_built_globs_without_repetitions_always_sound.
+
+(* the premises are satisfiable: x/{a/**,b/**/*} *)
+Example C09_alternation_nonvacuous :
+  let e := [120;47;123;97;47;42;42;44;98;47;42;42;47;42;125]%N in
+  exists t r, build e = BuildOk t r /\ rep_free t = true /\ is_exhaustive t = Ok Always /\ may_end_sep t = false.
+Proof. cbv zeta. do 2 eexists. repeat split; vm_compute; reflexivity. Qed.
